@@ -7,7 +7,7 @@ Require Import BB.Base.Str BB.Base.Xml BB.Model.PegSyntax BB.Model.Unparse.
 Require Import BB.Gen.Grammar BB.Gen.TablesTypes BB.Gen.TablesXsl.
 Require Import BB.Proofs.Tables BB.Model.UnparseDoc BB.Proofs.UnparseText.
 Require Import BB.Model.EidSpec BB.Proofs.UnparseEids.
-Require Import BB.Base.Dict BB.Model.Types BB.Model.Peg BB.Gen.TablesParser BB.Model.Convert BB.Model.Eid BB.Model.EidSpec BB.Model.PreParse BB.Model.XmlGen BB.Gen.TablesLibs BB.Proofs.Totality BB.Proofs.PlainLineConvert BB.Proofs.ParagraphRoundTrip BB.Proofs.HierElement BB.Proofs.HierElementConvert BB.Proofs.HierNoHeading BB.Proofs.HierNoHeadingConvert BB.Proofs.SectionRoundTrip.
+Require Import BB.Base.Dict BB.Model.Types BB.Model.Peg BB.Gen.TablesParser BB.Model.Convert BB.Model.Eid BB.Model.EidSpec BB.Model.PreParse BB.Model.XmlGen BB.Gen.TablesLibs BB.Proofs.Totality BB.Proofs.PlainLineConvert BB.Proofs.ParagraphRoundTrip BB.Proofs.HierElement BB.Proofs.HierElementConvert BB.Proofs.HierNoHeading BB.Proofs.HierNoHeadingConvert BB.Proofs.SectionRoundTrip BB.Proofs.CrossheadingConvert BB.Proofs.CrossheadingRoundTrip.
 
 (* every element of the hierarchical template is printed with a keyword the parser reads back as
    the same element (other has no keyword: listed gap, it is unparsed by the catch-all template) *)
@@ -118,3 +118,22 @@ Example C05_section_round_trip_no_heading_example :
                      (of_string "(a)") (of_string "SEC 2. - **x** {{^y}} \\ //z P{a b}") in
   convert (of_string "/akn/za/act/2009/1") (of_string "hier_element") (of_string "sec_1") (unparse_doc x) = OkR x.
 Proof. vm_compute. reflexivity. Qed.
+
+
+(* ... and for a crossheading (`CROSSHEADING text`, blank line): unparsing <crossHeading eId="<prefix__>crossHeading_1">t</crossHeading> and
+   converting the written text back - first alternative of rule hier_element, to_dict, XML builder, post-processing, eIds - gives that very
+   element, for every text without tab or line break and without blanks at its ends, whatever it spells (Proofs/CrossheadingRoundTrip.v).
+   The empty crossheading is excluded by [line_text]: it does not survive the trip (known finding F7a). *)
+Theorem C05_crossheading_round_trip : forall uri prefix s root_meta att_meta,
+  assoc_str uri meta_templates = Some (root_meta, att_meta) ->
+  line_text s ->
+  let x := El CHT [(EID, candidate prefix CHT (of_string "1"))] [Tx s] in
+  convert uri (of_string "hier_element") prefix (unparse_doc x) = OkR x.
+Proof. exact crossheading_round_trip. Qed.
+Print Assumptions C05_crossheading_round_trip.
+
+Example C05_crossheading_round_trip_example :
+  let x := El CHT [(EID, of_string "part_1__crossHeading_1")] [Tx (of_string "CROSSHEADING PART 1 - **x** {{^y}} \\ //z P{a b} }}")] in
+  convert (of_string "/akn/za/act/2009/1") (of_string "hier_element") (of_string "part_1") (unparse_doc x) = OkR x.
+Proof. vm_compute. reflexivity. Qed.
+
